@@ -27,7 +27,7 @@ import (
 // request/response objects; only the document, the routers, the validator
 // middleware and process-wide state are shared.
 type Op struct {
-	Kind    string      `json:"kind"` // find | vreq | vresp | visit | match | mw | gen
+	Kind    string      `json:"kind"` // find | vreq | vresp | visit | match | mw | gen | load
 	Router  string      `json:"router,omitempty"`
 	Method  string      `json:"method,omitempty"`
 	Path    string      `json:"path,omitempty"`
@@ -339,6 +339,16 @@ func (o Op) Exec(sh *Shared, marker string) (out string) {
 		h.ServeHTTP(c.Writer(), req)
 		c.Finalise()
 		return fmt.Sprintf("status %d body %s", c.Status, digest(c.Body.String()))
+	case "load":
+		// a loader of the caller's own, going through the process-wide default reader and its URI cache
+		loader := openapi3.NewLoader()
+		loader.IsExternalRefsAllowed = true
+		doc, err := loader.LoadFromFile("/simconc/" + marker + "/" + o.Path)
+		if err != nil {
+			return "load-err " + simfw.Trunc(fmt.Sprintf("%T", err), 40)
+		}
+		b, _ := json.Marshal(doc)
+		return "loaded " + digest(string(b))
 	case "gen":
 		val := genValue(o.Type, marker)
 		schemas := openapi3.Schemas{}
